@@ -230,27 +230,27 @@ func (r *Run) Finish(verifDir string, meta propMeta, start time.Time, seed int) 
 		"seed":        seed,
 		"level":       "other",
 		"coverage": map[string]any{
-			"explanation":         meta.Explanation + " NOT DECIDED: " + meta.NotDecided,
-			"obligations":         obligations,
-			"discharged":          okN,
-			"known_findings_hit":  len(knownHit),
-			"evaluations":         obligations,
-			"distinct_nontrivial": len(distinct),
-			"rule":                "obligations are rule instances located in the type-checked SSA of /repo's working tree (resolved callees, dominance, path enumeration, value flow); each instance is keyed rule:construct; an instance is non-trivial when it names a concrete construct (function, call site, field) — counted as distinct keys",
-			"samples":             samples,
+			"explanation":          meta.Explanation + " NOT DECIDED: " + meta.NotDecided,
+			"obligations":          obligations,
+			"discharged":           okN,
+			"known_findings_hit":   len(knownHit),
+			"evaluations":          obligations,
+			"distinct_nontrivial":  len(distinct),
+			"rule":                 "obligations are rule instances located in the type-checked SSA of /repo's working tree (resolved callees, dominance, path enumeration, value flow); each instance is keyed rule:construct; an instance is non-trivial when it names a concrete construct (function, call site, field) — counted as distinct keys",
+			"samples":              samples,
 			"reported_not_claimed": infos,
-			"instances_per_rule":  perRule,
-			"functions_analysed":  fl,
-			"n_functions":         len(fl),
-			"call_sites":          r.sites,
-			"files_loaded":        r.W.files,
-			"source_functions":    len(r.W.Funcs),
-			"build_tags":          r.W.Tags,
-			"checker_cmd":         "bin/cometlint -prop " + r.Prop + " -tier " + r.Tier,
-			"trusted_base":        []string{"go/parser, go/types, go/ssa (x/tools v0.50.0)", "documented contracts of stdlib/roaring listed in DESIGN.md section 2"},
-			"exhaustive":          false,
-			"notes":               r.notes,
-			"seeded_selftest":     os.Getenv("VERIF_SELFTEST_SUMMARY"),
+			"instances_per_rule":   perRule,
+			"functions_analysed":   fl,
+			"n_functions":          len(fl),
+			"call_sites":           r.sites,
+			"files_loaded":         r.W.files,
+			"source_functions":     len(r.W.Funcs),
+			"build_tags":           r.W.Tags,
+			"checker_cmd":          "bin/cometlint -prop " + r.Prop + " -tier " + r.Tier,
+			"trusted_base":         []string{"go/parser, go/types, go/ssa (x/tools v0.50.0)", "documented contracts of stdlib/roaring listed in DESIGN.md section 2"},
+			"exhaustive":           false,
+			"notes":                r.notes,
+			"seeded_selftest":      os.Getenv("VERIF_SELFTEST_SUMMARY"),
 			"extra_configurations": map[string]string{"thorough": "rules re-run under GOARCH=386 and -tags verif before this run (thorough.sh)"}[r.Tier],
 		},
 		"assumptions": meta.Assumptions,
